@@ -187,7 +187,10 @@ fn add_types_recursive(
         crate::verif::work(crate::verif::TYPES, 1);
         crate::verif::emit_detail(|| format!("{{\"ev\":\"types.visit\",\"ty\":{}}}", ty.index()));
     }
-    types.insert(ty);
+    if !types.insert(ty) {
+        // Already collected along with everything it refers to.
+        return;
+    }
 
     match &module.types[ty].inner {
         naga::TypeInner::Pointer { base, .. } => add_types_recursive(types, module, *base),
